@@ -132,6 +132,8 @@ val flat_map : ('a1 -> 'a2 list) -> 'a1 list -> 'a2 list
 
 val fold_left : ('a1 -> 'a2 -> 'a1) -> 'a2 list -> 'a1 -> 'a1
 
+val filter : ('a1 -> bool) -> 'a1 list -> 'a1 list
+
 val combine : 'a1 list -> 'a2 list -> ('a1 * 'a2) list
 
 val seq : int -> int -> int list
@@ -509,6 +511,56 @@ val transpose_wrs : scalar -> int -> int -> int -> (int -> t) -> wr list
 val transpose_tiled :
   scalar -> int -> int -> int -> (int -> t) -> (int -> t) -> int -> t
 
+type env = int -> int
+
+val eupd : env -> int -> int -> env
+
+val uniq : int list -> int list
+
+val count_occ_nat : int -> int list -> int
+
+val free_labels : int list -> int list
+
+val ext_of : int -> int list -> int list -> int
+
+val nloop : (int * int) list -> (env -> 'a1 -> 'a1) -> env -> 'a1 -> 'a1
+
+val term :
+  scalar -> int list -> int list -> int list -> int list -> (int -> t) ->
+  (int -> t) -> env -> t
+
+val loop_labels :
+  int list -> int list -> int list -> int list -> (int * int) list
+
+val out_labels : int list -> int list -> int list
+
+val out_dims : int list -> int list -> int list -> int list -> int list
+
+val einsum_general :
+  scalar -> int list -> int list -> int list -> int list -> (int -> t) ->
+  (int -> t) -> int -> t
+
+val nthl : int list -> int -> int
+
+val match_from_end_aux : int -> int list -> int list -> int -> int -> bool
+
+val match_indices_from_end : int list -> int list -> bool
+
+val match_from_start_aux : int -> int list -> int list -> int -> int -> bool
+
+val match_indices_from_start : int list -> int list -> bool
+
+val match_two_ends_aux :
+  int -> int list -> int list -> int -> int -> int -> bool
+
+val no_of_unique : int list -> int
+
+val is_mat_vec : int list -> int list -> bool
+
+val is_vec_mat : int list -> int list -> bool
+
+val is_mat_mat : int list -> int list -> bool
+
 val run_matmul_Z :
   cfg -> ety -> int -> int -> int -> z list -> z list -> z list
 
@@ -565,3 +617,9 @@ val run_permute : bool -> int list -> int list -> int list * int list
 val run_transpose : int -> int -> int -> z list
 
 val run_invp : int list -> int list
+
+val run_einsum :
+  int list -> int list -> int list -> int list -> z list -> z list -> int
+  list * z list
+
+val run_classify : int list -> int list -> bool list
